@@ -207,4 +207,125 @@ Proof.
     unfold ref_carries. rewrite E1, E2, E3, E4. unfold ue. cbn. repeat split; reflexivity.
 Qed.
 
+(* without IgnoreInconsistency the visibility side condition is automatic *)
+Lemma time_travel_strict : forall is_rel t par' us refs' pend,
+  o_ignore_incons o = false ->
+  in_window_commit t ->
+  nth_error ps' p = Some par' -> nth_error results p = Some us ->
+  apply_updates_up_to is_rel t (p_refs par') us = ApplyOk refs' pend ->
+  exists e r', current_at cis cl t = Some e /\ nth_error refs' j = Some r' /\ ref_carries r' e.
+Proof.
+  intros is_rel t par' us refs' pend Hig Hw Hpar' Hus Happ.
+  apply (time_travel is_rel t par' us refs' pend Hw); try assumption.
+  intros ck Hck Hlt Hst.
+  pose proof (stamps_monotone_mono _ _ Hsm) as Hm.
+  apply (between_visible cis o ps hist entries sortf ps' results p par j r cl s
+           Hv Hc Hp Hvis Hcp Hnp Hj Hf Hh Hne Hvx Hsm Hcc Hsel Hig ck Hck Hlt).
+  apply In_nth_error in Hck. destruct Hck as [i Hi].
+  apply (bound_ok_before cis cl (nth_error ps (S p)) i ck Hvx Hm Hi).
+  destruct Hw as [_ Hhi]. destruct (nth_error ps (S p)) as [n|]; [lia|exact I].
+Qed.
+
 End TimeTravel.
+
+(* ------------------------------------------------------------------------- *)
+(* the wrapper datasources produce histories with the assumed shape *)
+
+Lemma number_from_nth : forall fid l i k c,
+  nth_error (number_from fid i l) k = Some c -> c_vidx c = (i + k)%nat.
+Proof.
+  intros fid l. induction l as [|h r IH]; intros i k c H; cbn [number_from] in H.
+  - destruct k; discriminate.
+  - destruct k as [|k].
+    + inversion H; subst. cbn [c_vidx]. lia.
+    + cbn [nth_error] in H. rewrite (IH (S i) k c H). lia.
+Qed.
+
+Lemma to_child_list_vidx_ok : forall fid l, vidx_ok (to_child_list fid l).
+Proof. intros fid l i c H. unfold to_child_list in H. rewrite (number_from_nth _ _ _ _ _ H). lia. Qed.
+
+Lemma number_from_version : forall fid l i k c,
+  nth_error (number_from fid i l) k = Some c ->
+  exists h, nth_error l k = Some h /\ c_version c = h_version h.
+Proof.
+  intros fid l. induction l as [|h r IH]; intros i k c H; cbn [number_from] in H.
+  - destruct k; discriminate.
+  - destruct k as [|k].
+    + inversion H; subst. exists h. split; reflexivity.
+    + cbn [nth_error] in H. apply (IH (S i) k c H).
+Qed.
+
+Lemma sorted_versions_nth : forall (l : list hver),
+  Sorted (ge_rel (fun a b => h_version a <? h_version b)) l ->
+  forall i k a b, nth_error l i = Some a -> nth_error l k = Some b -> (i <= k)%nat ->
+  h_version a <= h_version b.
+Proof.
+  intros l Hs. apply Sorted_StronglySorted in Hs.
+  2:{ intros x y z Hxy Hyz. unfold ge_rel in *. apply Z.ltb_ge in Hxy, Hyz. apply Z.ltb_ge. lia. }
+  induction Hs as [|x l Hs IH Hall]; intros i k a b Ha Hb Hik.
+  - destruct i; discriminate.
+  - destruct i as [|i]; destruct k as [|k]; try lia.
+    + inversion Ha; inversion Hb; subst. lia.
+    + inversion Ha; subst. cbn [nth_error] in Hb. apply nth_error_In in Hb.
+      rewrite Forall_forall in Hall. specialize (Hall b Hb). unfold ge_rel in Hall. apply Z.ltb_ge in Hall. exact Hall.
+    + cbn [nth_error] in Ha, Hb. apply (IH i k); [exact Ha|exact Hb|lia].
+Qed.
+
+Lemma to_child_list_versions_mono : forall fid l, versions_mono (to_child_list fid l).
+Proof.
+  intros fid l i k a b Ha Hb Hik. unfold to_child_list in *.
+  destruct (number_from_version _ _ _ _ _ Ha) as [ha [Hha Ea]].
+  destruct (number_from_version _ _ _ _ _ Hb) as [hb [Hhb Eb]].
+  rewrite Ea, Eb. eapply sorted_versions_nth; [|exact Hha|exact Hhb|exact Hik].
+  apply isort_sorted. intros x y H. apply Z.ltb_lt in H. apply Z.ltb_ge. lia.
+Qed.
+
+(* ------------------------------------------------------------------------- *)
+(* ApplyUpdatesUpTo never reports an index error on the result of an annotation *)
+
+Lemma writes_length : forall ws ps p par,
+  nth_error ps p = Some par ->
+  exists par', nth_error (fold_left apply_write ws ps) p = Some par' /\
+               length (p_refs par') = length (p_refs par).
+Proof.
+  induction ws as [|[[p' j'] c'] ws IH]; intros ps p par Hp; cbn [fold_left].
+  - exists par. split; [exact Hp|reflexivity].
+  - unfold apply_write at 2.
+    assert (exists par1, nth_error (update_nth p' (set_child j' c') ps) p = Some par1 /\
+                         length (p_refs par1) = length (p_refs par)) as [par1 [H1 H2]].
+    { rewrite nth_error_update_nth. destruct (Nat.eqb p' p).
+      - rewrite Hp. cbn [option_map]. eexists. split; [reflexivity|].
+        destruct c' as [c|]; cbn [set_child p_refs]; [apply update_nth_length|reflexivity].
+      - exists par. split; [exact Hp|reflexivity]. }
+    destruct (IH _ p par1 H1) as [par' [H3 H4]]. exists par'. split; [exact H3|lia].
+Qed.
+
+Lemma apply_annotated_ok : forall cis o ps hist entries sortf ps' results p par par' us is_rel t,
+  valid_order o ps entries -> sort_spec less sortf ->
+  compute_with cis o ps hist entries sortf = Ok (ps', results) ->
+  nth_error ps p = Some par -> nth_error ps' p = Some par' -> nth_error results p = Some us ->
+  exists refs',
+    apply_updates_up_to is_rel t (p_refs par') us = ApplyOk refs' (filter (fun u => u_timestamp u >? t) us) /\
+    length refs' = length (p_refs par).
+Proof.
+  intros cis o ps hist entries sortf ps' results p par par' us is_rel t Hv Hs Hc Hp Hp' Hus.
+  rewrite compute_with_plans in Hc.
+  destruct (all_plans cis o ps hist entries) as [pls|] eqn:E; [|discriminate].
+  cbv zeta in Hc. inversion Hc; subst ps' results. clear Hc.
+  rewrite run_plans_fst in Hp'. cbn [fst] in Hp'.
+  destruct (writes_length (flat_map plan_writes pls) ps p par Hp) as [par1 [H1 H2]].
+  rewrite Hp' in H1. inversion H1; subst par1.
+  rewrite nth_error_map, run_plans_snd_nth in Hus. cbn [snd] in Hus. rewrite nth_error_map, Hp in Hus.
+  cbn [option_map app] in Hus. inversion Hus; subst us. clear Hus.
+  pose proof (all_plans_ok cis o ps hist entries pls (valid_order_ok o ps entries Hv) E) as Hok.
+  destruct (apply_exact is_rel t (sortf (flat_map (ups_for p) pls)) (p_refs par')) as [refs' [Ha [Hl _]]].
+  - intros u Hu _. destruct (Hs (flat_map (ups_for p) pls)) as [Hperm _].
+    apply (Permutation_in _ (Permutation_sym Hperm)) in Hu.
+    apply in_flat_map in Hu. destruct Hu as [pl [Hpl Hu]]. unfold ups_for in Hu.
+    destruct (Nat.eqb (pl_pidx pl) p) eqn:Epp; [|destruct Hu]. apply Nat.eqb_eq in Epp.
+    destruct (Hok pl Hpl) as [fid [cl [par0 [_ [Hp0 [_ [Hlocs Hups]]]]]]].
+    destruct (Hups u Hu) as [ck [l [_ [Hl' Eu]]]]. subst u. cbn [child_update u_index].
+    destruct (Hlocs l Hl') as [Hfl Hfid]. unfold loc_fid in Hfid. rewrite Hfl, Epp, Hp in Hfid.
+    rewrite H2. apply nth_error_Some. destruct (nth_error (p_refs par) (snd l)); [discriminate|discriminate Hfid].
+  - exists refs'. split; [exact Ha|lia].
+Qed.
